@@ -79,7 +79,7 @@ Definition after_completion (fuel : nat) (pkt : option pdu) : D unit :=
     (handle_waiting_for_finished_ack
        (match fuel with
         | O => raise E_FUEL
-        | S k => s <- get ;; when (d_state s =? ST_BUSY) (non_idle_fsm k None)
+        | S k => catch_abandoned (s <- get ;; when (d_state s =? ST_BUSY) (non_idle_fsm k None))
         end) pkt).
 
 Theorem c01_call_split : forall fuel pkt s,
